@@ -39,6 +39,7 @@ RULE = ("a case = gram code (plain/auth/sure/sure+auth) x header encoding x gram
         "one-gram-missing, interleaved. Non-trivial = the schedule is not a plain in-order single delivery; distinct = "
         "by code, encoding, gram counts and the schedule itself.")
 ASSUMPTIONS = [
+    "exactly once is per memo (memo id): two memos with the same text, source and signer are two deliveries",
     "memo ids are unique (the tree draws them from uuid1; the harness substitutes a deterministic counter-based source)",
     "a duplicate is a byte-identical copy of a gram the sender produced; conflicting forgeries are C22's subject",
     "all grams of one memo arrive from one source address",
@@ -46,7 +47,8 @@ ASSUMPTIONS = [
 ]
 NSHARDS = {"quick": 8, "thorough": 16}
 TIMEOUT_S = {"quick": 240, "thorough": 1500}
-REQUIRE = {"deliveries_fed": 5000, "memos_delivered_exactly_once": 1000, "memos_withheld_never_delivered": 300,
+REQUIRE = {"twin_cases": 300, "twin_memos_delivered": 700, "twin_bursts_with_two_completions": 100,
+           "deliveries_fed": 5000, "memos_delivered_exactly_once": 1000, "memos_withheld_never_delivered": 300,
            "service_points": 3000, "straddled_gram_borders": 200, "schedule_classes": 8, "signed_grams_verified": 500}
 EXHAUSTIVE = {
     "quick": "all delivery sequences with repeats of length <= 5 over the grams of a 2-gram and a 3-gram memo, "
@@ -211,6 +213,32 @@ def cases(tier, seed, shard, nshards):
                                                    2 if signed else None, nbytes, nbytes=nbytes)],
                                "schedule": None}
                     i += 1
+    # ---- 2c. twins: DISTINCT memos (distinct memo ids) with identical text, source and signer ----------------
+    for code in ms.ZERO_CODES:
+        signed = code in ms.AUTH_ZERO
+        for curt in (False, True):
+            size = working_size(code, curt) + 4
+            for n in (1, 2, 3):
+                nbytes = ms.nbytes_for(n, code, curt, size, 1)
+                for k in (2, 3):
+                    for mix in ("sequential", "roundrobin", "last-grams-together"):
+                        for batch in ("end", 1, 2):
+                            for api in ("all", "once"):
+                                if not quick or (api == "all" or batch == "end"):
+                                    if i % nshards == shard:
+                                        yield {"kind": "twins", "class": "twins", "code": code, "curt": curt,
+                                               "size": size, "rx_authic": signed and k == 2, "api": api,
+                                               "batch": batch, "n": n, "copies": k, "mix": mix,
+                                               "nbytes": nbytes if nbytes else 24, "signer": 1 if signed else None,
+                                               "withhold": None}
+                                    i += 1
+                    if n > 1:       # one of the twins never completes
+                        if i % nshards == shard:
+                            yield {"kind": "twins", "class": "twins", "code": code, "curt": curt, "size": size,
+                                   "rx_authic": signed, "api": "all", "batch": "end", "n": n, "copies": k,
+                                   "mix": "roundrobin", "nbytes": nbytes if nbytes else 24,
+                                   "signer": 1 if signed else None, "withhold": [k - 1, n - 1]}
+                        i += 1
     # ---- 3. random schedules ------------------------------------------------------------------
     rng = random.Random(f"{seed}:C20:{shard}")
     nrand = (3200 if quick else 120000) // nshards
@@ -307,7 +335,104 @@ def _service(rx, api, pending):
             rx.serviceAllRxOnce()
 
 
+def run_twins(case, ctx):
+    """k distinct memos (own memo ids) whose text, source and signer are identical: the receiver must deliver the
+    text once PER MEMO.  The ledger is by memo: count of deliveries of the text == number of memos all of whose
+    grams were handed over; never more deliveries than complete memos at any service point."""
+    ms.reset_mids()
+    code, curt, size = case["code"], case["curt"], case["size"]
+    signed = code in ms.AUTH_ZERO
+    text = ms.make_text("twin", case["nbytes"], random.Random(case["n"]))
+    k = case["copies"]
+    ctx.seen("schedule_classes", "twins")
+    copies = []
+    for c in range(k):
+        try:
+            gs, _tx = ms.render(text, code, curt, size, case["signer"] if signed else None, dst="rx")
+        except Exception as ex:
+            ctx.violation(_tx_key(case, ex, len(text.encode())), f"sender could not segment the twin memo: {ex!r}")
+            return
+        copies.append(gs)
+    if len({bytes(g) for gs in copies for g in gs}) != sum(len(gs) for gs in copies):
+        raise AssertionError("harness: twin memos share a datagram (memo ids not distinct)")
+    vid = ms.signer(case["signer"])[0] if signed else None
+    n = len(copies[0])
+    wh = tuple(case["withhold"]) if case["withhold"] else None
+    if case["mix"] == "sequential":
+        events = [(c, g) for c in range(k) for g in range(n)]
+    elif case["mix"] == "roundrobin":
+        events = [(c, g) for g in range(n) for c in range(k)]
+    else:   # everything but the last gram of each memo, then all last grams back to back
+        events = [(c, g) for c in range(k) for g in range(n - 1)] + [(c, n - 1) for c in range(k)]
+    events = [e for e in events if e != wh]
+    rx = ms.new_rx(case["rx_authic"], ms.keep_of(range(6)) if signed else None)
+    batch = case["batch"]
+    fed = [set() for _ in range(k)]
+    trace = []
+
+    def complete():
+        return sum(1 for c in range(k) if len(fed[c]) == n)
+
+    def check(final=False):
+        ctx.count("service_points")
+        got = list(rx.inbox) + list(rx.rxms)
+        for entry in got:
+            if tuple(entry) != (text, "twin-src", vid):
+                ctx.violation("corrupt-text:twins", f"delivered {entry!r} instead of the twin memo", trace=trace)
+                return False
+        if len(got) > complete():
+            ctx.violation("delivered-incomplete" if complete() < k else "delivered-twice:without-full-replay",
+                          f"{len(got)} deliveries of the twin text but only {complete()} memos are complete", trace=trace)
+            return False
+        if final and len(got) < complete():
+            ctx.violation("lost:distinct-memo-with-identical-text-src-vid-swallowed",
+                          f"{complete()} distinct memos (distinct memo ids, {n} grams each, code={code} curt={curt}) with the "
+                          f"same text, source and signer were handed over completely, api={case['api']} "
+                          f"batch={case['batch']} order={case['mix']}; the receiver delivered the text only {len(got)} "
+                          f"time(s); rxgs left: {len(rx.rxgs)}", trace=trace)
+            return False
+        return True
+
+    try:
+        pending = 0
+        before = 0
+        for step, (c, g) in enumerate(events, 1):
+            fed[c].add(g)
+            rx.wire.append((copies[c][g], "twin-src", (c, g, step)))
+            trace.append(["feed", c, g])
+            ctx.count("deliveries_fed")
+            pending += 1
+            if batch != "end" and step % batch == 0:
+                _service(rx, case["api"], pending)
+                pending = 0
+                if complete() - before >= 2:
+                    ctx.count("twin_bursts_with_two_completions")
+                before = complete()
+                if not check():
+                    return
+        for _ in range(2):
+            _service(rx, case["api"], pending + k)
+            pending = 0
+            if complete() - before >= 2:
+                ctx.count("twin_bursts_with_two_completions")
+            before = complete()
+            if not check():
+                return
+        if not check(final=True):
+            return
+    except Exception as ex:
+        ctx.violation(ms.escape_key(ex, "rx-escape"), f"receive path raised on genuine twin grams: {ex!r}", trace=trace)
+        return
+    finally:
+        rx.close()
+    ctx.count("twin_cases")
+    ctx.count("twin_memos_delivered", complete())
+    ctx.nontrivial(["twins", code, curt, n, k, case["mix"], case["batch"], case["api"], case["withhold"]])
+
+
 def run_case(case, ctx):
+    if case["kind"] == "twins":
+        return run_twins(case, ctx)
     ms.reset_mids()
     code, curt, size = case["code"], case["curt"], case["size"]
     signed = code in ms.AUTH_ZERO
